@@ -27,6 +27,8 @@ for d in sorted(os.listdir(V + "/seeded")):
     m = json.load(open(V + "/seeded/%s/meta.json" % d))
     first = "caught" if m["ran"].get("caught_by_quick") else "MISSED"
     now = "caught" if (m["ran"].get("caught_by_quick") or m["ran"].get("caught_by_quick_after_strengthening")) else "being strengthened"
+    if m.get("neutralised_by_fix"):
+        now = "class caught; the seed itself became harmless after /repo fix %s" % m["neutralised_by_fix"]["commit"]
     sd.append("| %s | %s | %s | %s |" % (d, m["breaks_property"], first, now))
 seeds = "\n".join(sd)
 srows = json.load(open(V + "/docs/status_rows.json"))
